@@ -72,3 +72,6 @@ def run(chk, prog):
     # through request.edit (REQ-DISPATCH in the vmap / scan analyses), not through gen_fn.edit
     from ._share import take
     take(chk, prog, "C11", lambda o: o["rule"] == "REQ-DISPATCH", "index-edit dispatch obligations (from C11)", 1)
+    # the backward proposal term is scored at the OLD values, which Rejuvenate reads from the discard of the inner Update: the discard obligations of the
+    # distributions (BWD-OLDVALUES, shared with C05 / C06)
+    take(chk, prog, "C05", lambda o: o["rule"] == "BWD-OLDVALUES" and o["instance"].startswith("Distribution."), "discard obligations of Distribution edits (from C05)", 2)
